@@ -371,7 +371,7 @@ mod native {
     #[test]
     fn c26_c27_redirect_chains_through_stacked_resolvers() {
         // hosts: a.ok and b.ok are on the allow-list, evil.no is public but not allowed, the rest are internal
-        let targets = ["http://a.ok/", "http://b.ok/", "http://evil.no/", "http://127.0.0.1/", "http://169.254.169.254/latest", "http://[::1]/", "http://localhost/", "http://2130706433/", "/relative"];
+        let targets = ["http://a.ok/", "http://b.ok/", "http://evil.no/", "http://127.0.0.1/", "http://169.254.169.254/latest", "http://[::1]/", "http://localhost/", "http://2130706433/", "/relative", "//127.0.0.1/x", "//169.254.169.254/latest", "/\\192.168.1.1/", "//b.ok/y", "//[::ffff:10.0.0.1]/"];
         let allowed = |u: &str| u.starts_with("http://a.ok/") || u.starts_with("http://b.ok/");
         let mut evals = 0usize;
         let mut nontrivial = 0usize;
@@ -381,8 +381,10 @@ mod native {
                 for t2 in 0..=targets.len() {
                     // a.ok redirects to t1 (or answers 200), b.ok redirects to t2 (or 200); everything else answers 200
                     let script = vec![("a.ok".to_string(), targets.get(t1).map(|s| s.to_string())), ("b.ok".to_string(), targets.get(t2).map(|s| s.to_string()))];
-                    let transport = Scripted { script, seen: Mutex::new(Vec::new()) };
-                    let restricted = RestrictedResolver::with_allowed_hosts(transport, vec![HostPattern::new("a.ok"), HostPattern::new("b.ok")]);
+                  for with_list in [true, false] {
+                    let transport = Scripted { script: script.clone(), seen: Mutex::new(Vec::new()) };
+                    // with_list == false: no allow-list configured, only the internal-address policy protects the transport
+                    let restricted = if with_list { RestrictedResolver::with_allowed_hosts(transport, vec![HostPattern::new("a.ok"), HostPattern::new("b.ok")]) } else { RestrictedResolver::new(transport) };
                     let r = RedirectResolver::new(restricted, allow_redirects);
                     let req = Request::get("http://a.ok/start").header("authorization", "secret").header("cookie", "c=1").body(Vec::new()).unwrap();
                     let _ = r.http_resolve(req);
@@ -396,7 +398,7 @@ mod native {
                         key = Some("redirect.too_many_requests");
                     }
                     for (i, (u, creds)) in seen.iter().enumerate() {
-                        if !allowed(u) {
+                        if with_list && !allowed(u) {
                             key = Some("redirect.request_outside_allow_list_reached_transport");
                         }
                         if let Ok(pu) = u.parse::<Uri>() {
@@ -415,13 +417,14 @@ mod native {
                         let c = counts.entry(k.to_string()).or_insert(0);
                         *c += 1;
                         if *c <= 3 {
-                            println!("VERIF-B-VIOLATION key={k} input=allow_redirects={allow_redirects} a.ok->{:?} b.ok->{:?} seen={seen:?}", targets.get(t1), targets.get(t2));
+                            println!("VERIF-B-VIOLATION key={k} input=allow_redirects={allow_redirects} allow_list={with_list} a.ok->{:?} b.ok->{:?} seen={seen:?}", targets.get(t1), targets.get(t2));
                         }
                     }
+                  }
                 }
             }
         }
         println!("VERIF-B-SAMPLE violation classes this run: {:?}", counts);
-        println!("VERIF-B unit=restricted test=c26_c27_redirect_chains_through_stacked_resolvers evaluations={evals} nontrivial={nontrivial} exhaustive=true domain=allow_redirects x (a.ok -> one of 9 targets or 200) x (b.ok -> one of 9 targets or 200), request with credentials, allow-list {{a.ok, b.ok}}");
+        println!("VERIF-B unit=restricted test=c26_c27_redirect_chains_through_stacked_resolvers evaluations={evals} nontrivial={nontrivial} exhaustive=true domain=allow_redirects x (a.ok -> one of 14 targets or 200) x (b.ok -> one of 14 targets or 200), request with credentials, allow-list {{a.ok, b.ok}} or none");
     }
 }
